@@ -12,6 +12,7 @@ import (
 	"net/http"
 	"net/url"
 	"strings"
+	"time"
 
 	"github.com/gobwas/httphead"
 	"github.com/gobwas/ws"
@@ -103,6 +104,7 @@ type hsClient struct {
 	Wrap       bool // Dial paths: the application installs its own WrapConn
 	Edited     bool // Upgrade path: the same Dialer value made an earlier handshake with another first offer in the same slice element
 	Reuse      bool // DebugDialer: the same value has already been used for an earlier Dial
+	Timeout    bool // Dial paths: Dialer.Timeout is set (an hour: it never fires, but Dial arms and restores deadlines around the handshake)
 	StatusCb   bool // Dialer.OnStatusError is set (and reads the body it is given)
 	EOFData    bool // the transport hands over the last bytes it has together with io.EOF
 	LiveCtx    bool // Dial paths: the caller's context is a cancellable one that stays alive throughout
@@ -522,6 +524,9 @@ func (c hsClient) dialer() ws.Dialer {
 	}
 	if c.Header != "" {
 		d.Header = ws.HandshakeHeaderString(c.Header)
+	}
+	if c.Timeout {
+		d.Timeout = time.Hour
 	}
 	if c.StatusCb {
 		d.OnStatusError = func(status int, reason []byte, resp io.Reader) { io.Copy(io.Discard, resp) }
@@ -953,6 +958,7 @@ func tokenValues(c hsClient) (hsClient, bool) {
 func C11(r *eng.Run) {
 	c, s := drawHS(r)
 	c.LiveCtx = c.Debug != 0 && r.T.Chance(sim.LCfg, 1, 4)
+	c.Timeout = c.Debug != 0 && r.T.Chance(sim.LCfg, 1, 4)
 	c.EOFData = r.T.Chance(sim.LFault, 1, 4)
 	if c.Debug != 0 && r.T.Chance(sim.LCfg, 1, 4) {
 		c.TLS = true
@@ -1066,6 +1072,7 @@ func C16Handshake(r *eng.Run) {
 	c, s := drawHS(r)
 	netErr := r.T.Chance(sim.LFault, 1, 3) // injected errors are net.Errors calling themselves timeouts
 	c.LiveCtx = c.Debug != 0 && r.T.Bool(sim.LCfg)
+	c.Timeout = c.Debug != 0 && r.T.Chance(sim.LCfg, 1, 3)
 	httpKind := s.Kind == 1 // request parsing of HTTPUpgrader is net/http's: only its response writes are failed
 	// Keep the enumerated streams short.
 	if len(c.Header) > 200 {
